@@ -234,6 +234,11 @@ class Sym:
     def _cmp(self, o, f):
         if not _is_numlike(o):
             return NotImplemented
+        oo = _np_scalar(o)
+        if isinstance(oo, float) and oo in (float('inf'), float('-inf')):
+            # every real/int is strictly between -inf and +inf
+            big = oo > 0
+            return bool(f(0, 1)) if big else bool(f(1, 0))
         ta, tb = _coerce2(self, o)
         return _wrap(f(ta, tb))
 
@@ -435,6 +440,8 @@ def has_sym(x, _depth=0):
         return any(has_sym(y, _depth + 1) for y in x)
     if isinstance(x, dict):
         return any(has_sym(k, _depth + 1) or has_sym(v, _depth + 1) for k, v in x.items())
+    if isinstance(x, slice):
+        return isinstance(x.start, Sym) or isinstance(x.stop, Sym) or isinstance(x.step, Sym)
     tn = type(x)
     if tn.__module__ == 'numpy' and tn.__name__ == 'ndarray':
         if x.dtype == object:
